@@ -16,7 +16,7 @@ import (
 var Shapes = []string{
 	"text", "textcrlf", "html", "cyrillic", "cjk", "utf8big", "dna", "numeric", "base64",
 	"elfx86", "pe", "elfarm64", "elfbogus", "pebogus", "machobogus", "wav", "bmp", "ppm", "runs", "zeros",
-	"skewed", "raredom", "ramp255", "ramp256", "smallalpha", "periodic", "random", "magicmix", "repeatblocks", "sorted", "utf8dirty", "longruns", "farmatch", "crlfcut", "constchunks", "randtext", "bigvocab", "fsdstress", "ffmix", "wordlist", "wordlist3", "staircase", "staircase2", "clusterq", "fibword", "thuemorse", "bigperiod", "utfcont",
+	"skewed", "raredom", "ramp255", "ramp256", "smallalpha", "periodic", "random", "magicmix", "repeatblocks", "sorted", "utf8dirty", "longruns", "farmatch", "crlfcut", "constchunks", "randtext", "bigvocab", "fsdstress", "ffmix", "wordlist", "wordlist3", "staircase", "staircase2", "clusterq", "fibword", "thuemorse", "bigperiod", "utfcont", "rangeedge",
 }
 
 var words = strings.Fields(`the of and to a in is that it was for on are as with his they at be this from have or by one had not but what all were
@@ -318,6 +318,40 @@ func Make(shape string, n int, seed int64) []byte {
 			} else {
 				b = append(b, ' ')
 			}
+		}
+		b = b[:n]
+	case "rangeedge":
+		// chunks of 32768 bytes whose scaled frequencies are exact powers of two (value 0 x8, value 1 x248, values 2..255 x128
+		// each) and which start with four ordinary symbols (the 4th a multiple of 16) followed by the rarest one: drives a
+		// range coder to the exact bottom of its range while the interval straddles a carry boundary
+		for len(b) < n {
+			var ch []byte
+			for k := 0; k < 8; k++ {
+				ch = append(ch, 0)
+			}
+			for k := 0; k < 248; k++ {
+				ch = append(ch, 1)
+			}
+			for v := 2; v < 256; v++ {
+				for k := 0; k < 128; k++ {
+					ch = append(ch, byte(v))
+				}
+			}
+			for i := len(ch) - 1; i > 0; i-- {
+				j := r.Intn(i + 1)
+				ch[i], ch[j] = ch[j], ch[i]
+			}
+			pre := []byte{byte(2 + r.Intn(254)), byte(2 + r.Intn(254)), byte(2 + r.Intn(254)), byte(16 * (1 + r.Intn(15))), 0}
+			// swap the prefix symbols into place (keeps the histogram)
+			for i, v := range pre {
+				for j := i; j < len(ch); j++ {
+					if ch[j] == v {
+						ch[i], ch[j] = ch[j], ch[i]
+						break
+					}
+				}
+			}
+			b = append(b, ch...)
 		}
 		b = b[:n]
 	case "utfcont":
